@@ -1,6 +1,12 @@
 (* C18 driver.  Case line (from harness/cmd/c18):
-     (c18 ws (idle M) (keys (i e p h ip)...) (sched ev...) (wins (w ev obs...)...) (minus (i (wins ...))...))
-     (c18 sse (idle M) (keys) (sched ...) (wins ...))
+     (c18 ws (idle M) (keys (i e p h ip)...) (hdrs (h hid (name value...)...)...) (sched ev...) (wins (w ev obs...)...) (minus (i (wins ...))...))
+     (c18 sse (idle M) (keys) (hdrs) (sched ...) (wins ...))
+   h names a header multimap of the harness' table: (hdrs ..) spells it out (names and values interned as numbers, names in
+   the order Header.Write enumerates them) together with hid, the first table entry that presents the SAME identity at the
+   upgrade request (the upstream's net/http canonicalises the spelling of names and does not see a name without values).
+   The model's key is Model.conn_key of the option tuple (every header line).  The upstream reports the identity it saw at
+   each upgrade as (sdial d e p hid); the spec checkers compare identities: a subscribe frame of i may arrive on
+   connection d only if i's option tuple presents, at an upgrade, exactly what the upstream saw when d was dialled.
    For every window the harness event is replayed on the extracted LTS (the external action, then
    the internal actions to quiescence), the model's observables are compared with the
    implementation's (corr:C18/ws, corr:C18/sse), and the spec checkers extracted from Spec.v
@@ -10,8 +16,21 @@ let ni = nat_of_int
 let ii = int_of_nat
 let nn = n_of_int
 
-let key_of_ints e p h ip : key = (((nn e, nn p), nn h), nn ip)
-let ints_of_key (k : key) = let (((e, p), h), ip) = k in (int_of_n e, int_of_n p, int_of_n h, int_of_n ip)
+(* h -> (hid, multimap); filled per case from the (hdrs ..) element *)
+let hdr_tbl : (int, int * (n * n list) list) Hashtbl.t = Hashtbl.create 16
+let hdrs_of h = match Hashtbl.find_opt hdr_tbl h with
+  | Some (_, m) -> m
+  | None -> if h = 0 then [] else [(nn 9999, [nn h])]
+let hid_of h = match Hashtbl.find_opt hdr_tbl h with Some (x, _) -> x | None -> h
+let key_of_ints e p h ip : key = conn_key (((nn e, nn p), hdrs_of h), nn ip)
+(* (e, p, IDENTITY presented at an upgrade, ip) *)
+let ints_of_key (k : key) =
+  let (((e, p), lines), ip) = k in
+  let hs = List.sort compare (Hashtbl.fold (fun h (hid, m) acc -> if hdr_lines m = lines then hid :: acc else acc) hdr_tbl []) in
+  let h = (match hs with x :: _ -> x | [] -> (match lines with [] -> 0 | [(_, v)] -> int_of_n v | _ -> 99)) in
+  (int_of_n e, int_of_n p, h, int_of_n ip)
+let ident_key (k : key) : key = let (e, p, h, ip) = ints_of_key k in key_of_ints e p h ip
+let ident_eq (a : key) (b : key) = ints_of_key a = ints_of_key b
 
 let cls_of_err = function
   | ECtx (_, _) -> "ctx" | EDial -> "dial" | EInit _ -> "init" | EClosed _ -> "closed"
@@ -174,12 +193,21 @@ let handle (x : sexp) : (string * string) list =
   match x with
   | L (A "c18" :: A "panic" :: _) -> [("specfail", "total: harness recovered a panic " ^ print_sexp x)]
   | L (A "c18" :: A "stress" :: _) -> [("ok", "tr")]
-  | L (A "c18" :: A mode :: L [A "idle"; idl] :: L (A "keys" :: ks) :: L (A "sched" :: _) :: L (A "wins" :: wins) :: rest) ->
+  | L (A "c18" :: A mode :: L [A "idle"; idl] :: L (A "keys" :: ks) :: L (A "hdrs" :: hs) :: L (A "sched" :: _) :: L (A "wins" :: wins) :: rest) ->
     let idle_mode = atoi idl in
+    Hashtbl.reset hdr_tbl;
+    List.iter (fun x -> match x with
+        | L (h :: hid :: entries) ->
+          Hashtbl.replace hdr_tbl (atoi h) (atoi hid, List.map (fun en -> match en with
+              | L (name :: vs) -> (nn (atoi name), List.map (fun v -> nn (atoi v)) vs)
+              | _ -> raise (Sexp_error "hdrs entry")) entries)
+        | _ -> raise (Sexp_error "hdrs")) hs;
     let keys_i = List.map (fun k -> match k with
         | L [i; e; p; h; ip] -> (atoi i, key_of_ints (atoi e) (atoi p) (atoi h) (atoi ip))
         | _ -> raise (Sexp_error "key")) ks in
     let keys = List.map (fun (i, k) -> (ni i, k)) keys_i in
+    (* for the spec checkers on the implementation's log: what each option tuple presents at an upgrade *)
+    let keys_id = List.map (fun (i, k) -> (i, ident_key k)) keys in
     let keyof i = try List.assoc i keys_i with Not_found -> key_of_ints 9 9 9 9 in
     let res = ref [] in
     let add st d = res := (st, d) :: !res in
@@ -283,12 +311,12 @@ let handle (x : sexp) : (string * string) list =
          | None -> ["(skip)"])
       | L [A "ack"; a] ->
         let k = keyof (atoi a) in
-        (match List.find_opt (fun (_, x) -> x.d_phase = DInit && key_eqb x.d_key k) (dial_list !s) with
+        (match List.find_opt (fun (_, x) -> x.d_phase = DInit && ident_eq x.d_key k) (dial_list !s) with
          | Some (d, _) -> opt (do_ack d)
          | None -> ["(skip)"])
       | L [A "initfail"; a; r] ->
         let k = keyof (atoi a) in
-        (match List.find_opt (fun (_, x) -> x.d_phase = DInit && key_eqb x.d_key k) (dial_list !s) with
+        (match List.find_opt (fun (_, x) -> x.d_phase = DInit && ident_eq x.d_key k) (dial_list !s) with
          | Some (d, _) -> opt (do_step (UpInitFail (ni d, nn (atoi r))))
          | None -> ["(skip)"])
       | L [A ("next" | "complete" | "error" as op); i; _] | L [A ("complete" | "error" as op); i] ->
@@ -327,7 +355,7 @@ let handle (x : sexp) : (string * string) list =
       | L [A ("drop" | "bad"); a] ->
         let k = keyof (atoi a) in
         let live = List.filter (fun c -> match !s.cns (ni c) with
-            | Some x -> x.c_dead = None && key_eqb x.c_key k | None -> false)
+            | Some x -> x.c_dead = None && ident_eq x.c_key k | None -> false)
             (List.init (ii !s.next_c) (fun c -> c)) in
         (match List.rev live with
          | c :: _ -> opt (do_step (UpDrop (ni c)))
@@ -399,14 +427,14 @@ let handle (x : sexp) : (string * string) list =
              | _ -> ())
           | _ -> ()) wins;
       if not (routing_b ilog) then add "specfail" "routing an upstream frame was not delivered to exactly its live subscription in order";
-      if not (shared_b keys ilog) then add "specfail" "shared_iff_same_key a subscribe frame arrived on a connection dialled for another option tuple";
+      if not (shared_b keys_id ilog) then add "specfail" "shared_iff_same_key a subscribe frame arrived on a connection whose upgrade request carried another option tuple (endpoint / sub-protocol / header values / init payload)";
       if idle_mode <> 2 && not (drain_b ilog) then add "specfail" "conns_drain an acknowledged connection without live subscription is still open at quiescence";
       (* the model of the repaired code blames nobody (c18_cancel_isolated): a failure of this clause has no
          recorded cause; the model's own log must satisfy the ghost-tagged form too *)
       let model_ok = isolated_log_b model_log in
       let cause = if !mism then "cause=unattributed(model-disagrees)"
         else if model_ok then "cause=unattributed" else "cause=unattributed(model-log-not-isolated)" in
-      if not (isolated_b keys ilog) then
+      if not (isolated_b keys_id ilog) then
         add "specfail" ("cancel_isolated a subscriber with a live ctx and a healthy upstream failed; " ^ cause);
       (* differential form, fault-free schedules only: j fails with i present, not without *)
       let faultfree = not (List.exists (fun e -> match e with
